@@ -344,6 +344,10 @@ class Responder():
             self.status = "{0} {1}".format(self.status,
                                            httping.STATUS_DESCRIPTIONS[self.status])
 
+        if (self.environ.get('REQUEST_METHOD') == 'HEAD' or
+                self.status[:3] in ('204', '304') or self.status[:1] == '1'):
+            self.chunkable = False  # response never has body so no chunks not even last
+
         startLine = "{0} {1}".format(self.HttpVersionString, self.status)
         try:
             startLine = startLine.encode('ascii')
